@@ -249,6 +249,7 @@ class Parser:
         self.toks, self.i, self.where = toks, 0, where
         self.tparams = dict(tparams or {})          # template parameter name -> kind ('T', or 'int' when instantiated at index types)
         self.enums = enums or {}
+        self.ptr_elems = set()                      # element type names `E` such that `E*` is a pointer into the array's data
 
     # -- helpers
     def err(self, msg):
@@ -303,12 +304,19 @@ class Parser:
         elif name in UNSUPPORTED_TYPES:
             self.i = save
             return 'unsupported:' + name
+        elif name in self.ptr_elems and self.peek(j - self.i).text == '*':
+            kind = 'elem'
         if kind is None:
             self.i = save
             return None
         self.i = j
         while self.at('const'):
             self.i += 1
+        if self.at('*') and name in self.ptr_elems:
+            self.i += 1
+            while self.at('const'):
+                self.i += 1
+            return 'ptr'
         return kind
 
     # -- expressions (precedence climbing)
@@ -691,6 +699,10 @@ class Translator:
             key, arg = self._path(e[1]) + '.' + e[2] + '()', e[3][0]
         elif e[0] == 'mcall' and len(e[3]) == 0:
             key = self._path(e[1]) + '.' + e[2] + '()'
+        if key is not None and key.startswith('this.'):
+            key = key[5:]
+        if False:
+            pass
         elif e[0] == 'member':
             key = self._path(e)
         if key is None or key not in acc:
@@ -700,6 +712,8 @@ class Translator:
     def _path(self, e):
         if e[0] == 'var':
             return e[1]
+        if e[0] == 'mcall' and e[1] == ('var', 'this') and not e[3]:
+            return e[2] + '()'
         if e[0] == 'member':
             return self._path(e[1]) + '.' + e[2]
         if e[0] == 'un' and e[1] == '*':
@@ -791,6 +805,8 @@ class Translator:
                 kind = self.arith_kind(a, b, ln)
                 x = a[0] if a[1] != 'prop' else self.coerce(a, 'int', ln)
                 y = b[0] if b[1] != 'prop' else self.coerce(b, 'int', ln)
+                if kind == 'ptr' and op not in ('+', '-'):
+                    raise self.err(ln, f'`{op}` on a pointer (outside the subset)')
                 if op == '/':
                     if kind != 'int':
                         raise self.err(ln, 'division in a template type (outside the subset)')
@@ -804,6 +820,13 @@ class Translator:
         if k == 'call':
             name, targ, args = e[1], e[2], e[3]
             base = name.split('::')[-1]
+            acc = self.spec.get('accessors') or {}
+            if name + '()' in acc and len(args) <= 1:
+                lean, kind = acc[name + '()']
+                if not args:
+                    return (lean, kind)
+                a = self.coerce(self.expr(args[0], env, ln), 'int', ln)
+                return (f'({lean}.getD (Int.toNat ({a})) 0)', kind)
             if name in ('std::min', 'std::max', 'min', 'max') and len(args) == 2:
                 a, b = self.expr(args[0], env, ln), self.expr(args[1], env, ln)
                 kind = targ or self.join_kind(a[1], b[1], ln)
@@ -872,6 +895,8 @@ class Translator:
         ks = {a[1], b[1]}
         if ks <= {'int', 'prop'}:
             return 'int'
+        if a[1] == 'ptr' and b[1] == 'int':
+            return 'ptr'
         if 'bool' in ks:
             raise self.err(ln, 'arithmetic on a bool variable (outside the subset)')
         if ks & {'T', 'Tx'}:
@@ -969,6 +994,8 @@ class Translator:
                 if v in env:
                     raise self.err(ln, f'declaration of `{v}` shadows a variable of an enclosing scope (outside the subset)')
                 kd = 'bool' if s[1] == 'bool' and not self.spec.get('bool_as_T') else ('T' if s[1] == 'bool' else s[1])
+                if kd == 'elem':
+                    raise self.err(ln, 'declaration of an array element value (outside the subset)')
                 val = self.coerce(self.expr(init, env, ln), kd, ln)
                 env[v] = kd
                 out.append(f'{pad}let {lname(v)} : {self.lean_type(kd)} := {val}')
@@ -1118,10 +1145,25 @@ class Translator:
         return out
 
     def lean_type(self, kd):
-        return {'int': 'Int', 'T': 'Int', 'bool': 'Bool'}[kd]
+        return {'int': 'Int', 'T': 'Int', 'bool': 'Bool', 'ptr': 'Int', 'addr': 'Int'}[kd]
+
+    def addr_of(self, e, env, ln):
+        """the element offset designated by the lvalue `e` (`p[i]` or `*p` with `p` a pointer into the data)"""
+        if e[0] == 'index':
+            b = self.expr(e[1], env, ln)
+            if b[1] == 'ptr':
+                i = self.coerce(self.expr(e[2], env, ln), 'int', ln)
+                return f'({b[0]} + {i})'
+        if e[0] == 'un' and e[1] == '*':
+            b = self.expr(e[2], env, ln)
+            if b[1] == 'ptr':
+                return b[0]
+        raise self.err(ln, 'returned reference is not `p[i]` / `*p` for a pointer into the data (outside the subset)')
 
     def ret(self, e, env, ln):
         rk = self.spec['ret_kind']
+        if rk == 'addr':
+            return self.addr_of(e, env, ln)
         flag = self.spec.get('flag_const')
         if flag:
             if e == ('var', flag):
@@ -1233,6 +1275,34 @@ TARGETS = [
          int_limits={'max': IDX_MAX},
          doc='`ref.dim(d)` reads the list `ref_dims`, `ref.ndims()` is its length, `position[d]` reads the list `position`; '
              '`numeric_limits<index_type>::max()` is 2^63 - 1'),
+    dict(key='isLeft', file='mahotas/_convex.cpp', func='isLeft', pick='plain', lean='isLeft',
+         params=[], extra_params=[('p0y', 'int'), ('p0x', 'int'), ('p1y', 'int'), ('p1x', 'int'), ('p2y', 'int'), ('p2x', 'int')],
+         ret_kind='int', raw_params=True, c_param_names=['p0', 'p1', 'p2'],
+         accessors={'p0.y': ('p0y', 'int'), 'p0.x': ('p0x', 'int'), 'p1.y': ('p1y', 'int'), 'p1.x': ('p1x', 'int'),
+                    'p2.y': ('p2y', 'int'), 'p2.x': ('p2x', 'int')},
+         doc='`Point` members are `long`; the `double` result is the exact integer (products below 2^53: standing assumption)'),
+    dict(key='forward_cmp', file='mahotas/_convex.cpp', func='forward_cmp', pick='plain', lean='forward_cmp',
+         params=[], extra_params=[('a_y', 'int'), ('a_x', 'int'), ('b_y', 'int'), ('b_x', 'int')],
+         ret_kind='bool', raw_params=True, c_param_names=['a', 'b'],
+         accessors={'a.y': ('a_y', 'int'), 'a.x': ('a_x', 'int'), 'b.y': ('b_y', 'int'), 'b.x': ('b_x', 'int')}),
+    dict(key='reverse_cmp', file='mahotas/_convex.cpp', func='reverse_cmp', pick='plain', lean='reverse_cmp',
+         params=[], extra_params=[('a_y', 'int'), ('a_x', 'int'), ('b_y', 'int'), ('b_x', 'int')],
+         ret_kind='bool', raw_params=True, c_param_names=['a', 'b'],
+         accessors={'a.y': ('a_y', 'int'), 'a.x': ('a_x', 'int'), 'b.y': ('b_y', 'int'), 'b.x': ('b_x', 'int')}),
+    dict(key='at_flat', file='mahotas/numpypp/array.hpp', func='at_flat', pick='plain', lean='at_flat',
+         must_contain=['for'], params=[('p', 'int')],
+         extra_params=[('carray', 'bool'), ('data', 'ptr'), ('dims', 'list'), ('strides', 'list')],
+         ret_kind='addr', ptr_elems=['BaseType'],
+         consts={'is_carray_': ('carray', 'bool')},
+         accessors={'data()': ('data', 'ptr'), 'dim()': ('dims', 'int'), 'stride()': ('strides', 'int'),
+                    'ndims()': ('(dims.length : Int)', 'int')},
+         doc='the returned reference is the element offset (in elements) from the array origin: `data()` is the offset `data`, '
+             '`dim(d)` / `stride(d)` read the lists `dims` / `strides` (strides in elements), `ndims()` is `dims.length`'),
+    dict(key='pos_to_flat', file='mahotas/numpypp/array.hpp', func='pos_to_flat', pick='plain', lean='pos_to_flat',
+         params=[], extra_params=[('dims', 'list'), ('pos', 'list')], raw_params=True, c_param_names=['pos'],
+         ret_kind='int',
+         accessors={'pos.position_[]': ('pos', 'int'), 'dim()': ('dims', 'int'), 'ndims()': ('(dims.length : Int)', 'int')},
+         doc='`dim(d)` reads the list `dims`, `pos.position_[d]` the list `pos`; the `int` result is unbounded (no index overflow)'),
 ]
 
 
@@ -1251,6 +1321,8 @@ def pick_function(repo: Path, tg) -> CFunc:
             sel.append(f)
         elif want == 'plain' and f.template is None:
             sel.append(f)
+    if tg.get('must_contain'):
+        sel = [f for f in sel if all(any(t.text == w for t in f.body_toks) for w in tg['must_contain'])]
     if len(sel) != 1:
         raise TranslationError(f'{tg["file"]}: {len(sel)} definitions of `{tg["func"]}` ({want}) found, expected exactly one')
     return sel[0]
@@ -1322,6 +1394,7 @@ def translate_target(repo: Path, tg, known) -> dict:
         if exp is not None and got != exp:
             raise TranslationError(f'{where}: parameters {got}, expected {exp}')
     pr = Parser(f.body_toks, where, tparams={**{n: 'T' for n in tparams}, **{n: 'int' for n in INT}}, enums=enums)
+    pr.ptr_elems = set(tg.get('ptr_elems') or [])
     if tg.get('select') == 'first-for-body':
         body = select_first_for(f, pr, where)
     else:
@@ -1345,6 +1418,8 @@ def translate_target(repo: Path, tg, known) -> dict:
         binders.append('(dt : DT)')
     for n, kd in cfg:
         binders.append(f'({lname(n)} : {"List Int" if kd == "list" else tr.lean_type(kd)})')
+    for n, kd in tg.get('extra_params', []):
+        binders.append(f'({lname(n)} : {"List Int" if kd == "list" else tr.lean_type(kd)})')
     rty = 'Option Int' if tg.get('flag_const') else tr.lean_type(tg['ret_kind'])
     doc = [f'/-- `{tg["func"]}`{" (" + tg["pick"] + ")" if tg["pick"] != "plain" else ""} — {tg["file"]} lines {f.line0}–{f.line1}, '
            f'sha256 of the token text {f.hash}.']
@@ -1356,7 +1431,7 @@ def translate_target(repo: Path, tg, known) -> dict:
         doc.append('    assumed: ' + '; '.join(tr.assumptions) + '.')
     doc[-1] += ' -/'
     lines = doc + [f'def {tg["lean"]} {" ".join(binders)} : {rty} :=', term, '']
-    info = dict(lean=tg['lean'], params=[kd for _, kd in cfg], ret=tg['ret_kind'],
+    info = dict(lean=tg['lean'], params=[kd for _, kd in cfg + list(tg.get('extra_params', []))], ret=tg['ret_kind'],
                 dt=('T-as-arg' if tg.get('template_call') else tr.uses_dt))
     return dict(lines=lines, info=info, func=f, calls=sorted(tr.calls))
 
@@ -1390,6 +1465,7 @@ import Mahotas.Model.Basic
 import Mahotas.Model.DType
 namespace Mahotas.Generated.C
 open Mahotas
+set_option linter.unusedVariables false
 '''
 
 
@@ -1464,10 +1540,11 @@ def generate(repo: Path, outdir: Path) -> dict:
                 raise
             failed[blk] = f'TranslationError: {e}'
         uses_dt = '(dt : DT)' in '\n'.join(lines)
+        allp = list(tg['params']) + list(tg.get('extra_params', []))
         known[tg['func'] if tg['pick'] != 'full' else tg['key']] = dict(
-            lean=tg['lean'], params=[kd for _, kd in tg['params']], ret=tg['ret_kind'],
+            lean=tg['lean'], params=[kd for _, kd in allp], ret=tg['ret_kind'],
             dt=('T-as-arg' if tg.get('template_call') else uses_dt))
-        entries.append((tg['lean'], [kd for _, kd in tg['params']], uses_dt, bool(tg.get('flag_const'))))
+        entries.append((tg['lean'], [kd for _, kd in allp], uses_dt, bool(tg.get('flag_const'))))
         names[blk] = ['Mahotas.Generated.C.' + n for n in defined_names('\n'.join(lines))]
         s += [f'-- BEGIN block {blk}'] + list(lines) + [f'-- END block {blk}', '']
     s += handle_block(entries)
